@@ -38,7 +38,17 @@ fn decode(ctx: &Ctx, tape: &[u32], disk: Option<DiskCfg>) -> PlanCase {
             stats.push((td.name.clone(), [0u32, 1, 10, 1000, 1_000_000, 3, u32::MAX][k]));
         }
     }
-    let query = {
+    // one case in 25: an ill-formed aggregation over a computed derived column (must be rejected)
+    let with_int: Vec<&TableDef> = db.schema.iter().filter(|td| td.cols.iter().any(|c| c.ty == Ty::Int)).collect();
+    let ill = if !with_int.is_empty() && t.chance(1, 25) {
+        let td = with_int[t.pick(with_int.len())];
+        ungrouped_derived_expr_query(&mut t, td)
+    } else {
+        None
+    };
+    let query = if let Some(q) = ill {
+        q
+    } else {
         let mut g = Gen { t: &mut t, cfg: cfg.clone(), schema: &db.schema, alias_no: 0 };
         g.query(0)
     };
